@@ -214,7 +214,7 @@ def _get_token_start_idx(doc_str):
                 next_line = doc_str[i : doc_str.find("\n", i)]
                 if next_line.count("-") == len(next_line):
                     return idx - len(stack)
-            elif any(filter(line.startswith, TOKENS_SET)):
+            elif any(filter(line.startswith, NON_NUMPYDOC_TOKENS_SET)):
                 return idx - len(stack)
             stack.clear()
         else:
@@ -765,6 +765,8 @@ NUMPYDOC_TOKENS_SET = frozenset(
         ),
     )
 )
+# A numpydoc section title is a bare word; it only starts a section when it is the whole line and is underlined
+NON_NUMPYDOC_TOKENS_SET = TOKENS_SET - NUMPYDOC_TOKENS_SET
 ARG_TOKENS = Tokens(
     TOKENS.rest[:-2],
     (TOKENS.google[0],),
